@@ -31,12 +31,20 @@ RULE = ("request sets of 1..4 characteristics over 1..2 aids x permissions {pr+p
         "EncryptionContext.post/post_all, the real BLE request/PDU-fragment/session-key code, the real IP secure framing + HTTP parser; only the aiocoap context / GATT client / TCP "
         "transport is an in-memory accessory that decrypts, decides per item and answers): requests of 1..4 items INCLUDING lone ones, every accept/reject vector for <=3 items "
         "(rejected first/middle/last/only), every PDU error status 1..6 resp. every HAP status, value formats bool/uint8/int/float/string, BLE timed writes refused at either stage, "
-        "IP reply styles spec/positive-signed/terse/always-207/400, histories of 2..8 operations on one session. non-trivial = distinct (path, status vector, shape)")
+        "IP reply styles spec/positive-signed/terse/always-207/400, histories of 2..8 operations on one session; reads, subscriptions and writes over EVERY permission class "
+        "(also none at all, hidden, the unsecured-only bits of the pairing-service characteristics, Identify) alone / paired with a readable one in both orders / requests made only "
+        "of unreadable ones, a requested characteristic the accessory was never asked about must still get an error entry; IP: the reply's STATUS LINE varied independently of its "
+        "body - every HTTP status {200,204,207,400,404,422,470,500,503} x body shape {none, {}, full list, failures only, request-wide status, request-wide status + partial list} "
+        "x accept/reject vector an honest accessory can produce, for write/read/subscribe/unsubscribe/identify(), a refusal the body tells is never presented as done whatever the "
+        "status line says. non-trivial = distinct (path, status vector, shape)")
 TRUSTED = ["aiohomekit.model (Accessories/Characteristic.perms) as the source of permissions", "json for the line protocol"]
 ASSUMPTIONS = ["reply JSON is an object; ids and statuses are integers (domain of the model)",
                "BLE (stub stream): the GATT request layer is replaced by a stub that raises PDUStatusError for a rejected write (C17 covers the PDU layer)",
                "end-to-end streams: the session keys are given (pair-verify is C01's), the BLE pairing's model is built from the layout (the GATT database fetch is C16/C17's); the "
                "in-memory accessory is conformant (answers every item under the request's transaction id / in a well-formed HTTP reply); instance ids are unique over the database",
+               "IP replies worded freely (status line varied independently of the body): the accessory is honest - what it accepted / refused is what its log says and, where the "
+               "reply has a body, what the body says; the call may FAIL on a reply whose status line and body contradict each other; a refusal that no body tells (no body, {}, "
+               "bytes after a 204 status line), a request-wide status or a 4xx status line in the reply to a SUBSCRIPTION request are noted in the evidence, not judged",
                "BLE reads: a characteristic the accessory refused to read is left out of the result by the unchanged library (open known finding ble-e2e/read-refused-item-omitted); it must never be given a value"]
 EXPLANATION = "Lean theorems C13_* over models of format_characteristic_list / to_status_code / put paths (status table regenerated from source); differential tie on the public pairing methods"
 
@@ -483,9 +491,21 @@ K_C2A, K_A2C, K_EVT = bytes(range(32)), bytes(range(32, 64)), bytes(range(64, 96
 E2E_FMT = {  # format -> (GATT presentation format, short HAP type used for it, struct code)
     "bool": (0x01, 0x25, "<?"), "uint8": (0x04, 0x08, "<B"), "int": (0x10, 0xCE, "<i"), "float": (0x14, 0x13, "<f"), "string": (0x19, 0x23, None)}
 E2E_PERMS = ["rw", "rw", "rw", "w", "r", "trw", "tw"]
+# the rest of the permission vocabulary (letters: r = paired read, w = paired write, t = timed write, h = hidden, o = only the UNSECURED read/write bits, as on
+# the characteristics of the pairing service; "" = no permission at all).  Nothing but r / w / t changes what the accessory accepts.
+E2E_PERMS_MORE = ["", "h", "wh", "rh", "rwh", "twh", "o"]
+PAIRING_TYPES = [0x4C, 0x4E, 0x4F, 0x50]  # Pair Setup, Pair Verify, Pairing Features, Pairing Pairings
+IDENTIFY_TYPE = 0x14
+SVC_TYPES = {0: 0x43, 1: 0x49, 2: 0x3E, 3: 0x55}  # service number of a layout row -> Lightbulb, Switch, Accessory Information, Pairing
 PDU_ERRORS = [1, 2, 3, 4, 5, 6]  # every non-success HAP PDU status (CoAP and BLE)
 HAP_ERRORS = [c.value for c in HapStatusCode if c.value not in (0, -1)]  # every defined HAP status (IP)
 TRANSPORTS = ("coap", "ble", "ip")
+# the status line of an IP reply, varied independently of its body
+HTTP_CODES = [200, 204, 207, 400, 404, 422, 470, 500, 503]
+HTTP_REASONS = {200: "OK", 204: "No Content", 207: "Multi-Status", 400: "Bad Request", 404: "Not Found", 422: "Unprocessable Entity",
+                470: "Connection Authorization Required", 500: "Internal Server Error", 503: "Service Unavailable"}
+HTTP_SHAPES = {"write": ["none", "empty", "full", "failures", "global"], "read": ["none", "empty", "full", "partial", "global"]}
+HTTP_SHAPES["subscribe"] = HTTP_SHAPES["unsubscribe"] = HTTP_SHAPES["identify"] = HTTP_SHAPES["write"]
 
 
 def _nonce(n):
@@ -561,7 +581,21 @@ def hap_perms(perm):
         out.append("pw")
     if "t" in perm:
         out.append("tw")
+    if "h" in perm:
+        out.append("hd")
     return out
+
+
+def model_perm(perm):
+    """the permission vocabulary of the Lean model of the BLE write path (rw, w, trw, tw, r): only r / w / t matter to it; whatever cannot be written is
+    refused locally like a read-only characteristic"""
+    if "w" not in perm:
+        return "r"
+    return ("t" if "t" in perm else "") + ("r" if "r" in perm else "") + "w"
+
+
+def type_of(c):
+    return c.get("typ") or E2E_FMT[c["fmt"]][1]
 
 
 def model_json(layout):
@@ -572,11 +606,11 @@ def model_json(layout):
         for s, chars in svcs:
             cs = []
             for c in chars:
-                e = {"iid": c["iid"], "type": "%X" % E2E_FMT[c["fmt"]][1], "perms": hap_perms(c["perm"]), "format": c["fmt"]}
+                e = {"iid": c["iid"], "type": "%X" % type_of(c), "perms": hap_perms(c["perm"]), "format": c["fmt"]}
                 if "r" in c["perm"]:
                     e["value"] = c["value"]
                 cs.append(e)
-            sv.append({"iid": 1000 + s, "type": "43" if s == 0 else "49", "characteristics": cs})
+            sv.append({"iid": 1000 + s, "type": "%X" % SVC_TYPES.get(s, 0x49), "characteristics": cs})
         out.append({"aid": aid, "services": sv})
     return out
 
@@ -590,11 +624,12 @@ def coap_database(layout):
             cs = []
             for c in chars:
                 p = c["perm"]
-                props = (0x10 if "r" in p else 0) | (0x20 if "w" in p else 0) | (0x08 if "t" in p else 0) | (0x80 if "r" in p else 0)
-                gatt, typ, _ = E2E_FMT[c["fmt"]]
+                props = ((0x10 if "r" in p else 0) | (0x20 if "w" in p else 0) | (0x08 if "t" in p else 0) | (0x80 if "r" in p else 0) | (0x40 if "h" in p else 0)
+                         | (0x03 if "o" in p else 0))
+                gatt, typ = E2E_FMT[c["fmt"]][0], type_of(c)
                 cs.append(_tlv8(0x13, _tlv8(0x04, bytes([typ])) + _tlv8(0x05, struct.pack("<H", c["iid"])) + _tlv8(0x0A, struct.pack("<H", props))
                                 + _tlv8(0x0C, struct.pack("<BbHBH", gatt, 0, 0x2700, 1, 0))))
-            sv.append(_tlv8(0x15, _tlv8(0x07, struct.pack("<H", 1000 + s)) + _tlv8(0x06, bytes([0x43 if s == 0 else 0x49])) + _tlv8(0x14, b"\x00\x00".join(cs))))
+            sv.append(_tlv8(0x15, _tlv8(0x07, struct.pack("<H", 1000 + s)) + _tlv8(0x06, bytes([SVC_TYPES.get(s, 0x49)])) + _tlv8(0x14, b"\x00\x00".join(cs))))
         accs.append(_tlv8(0x19, _tlv8(0x1A, struct.pack("<H", aid)) + _tlv8(0x16, b"\x00\x00".join(sv))))
     return _tlv8(0x18, b"\x00\x00".join(accs))
 
@@ -815,6 +850,14 @@ class IpWire:
         self.rx = self.tx = 0
         self.dec, self.enc = _aead(K_C2A), _aead(K_A2C)
         self.replies = []  # (status code, parsed body or None) of every /characteristics request
+        # per-operation override of HOW the reply is worded (set by the history runner from op["http"]): {"code": HTTP status, "shape": shape of the body,
+        # "cl0": a reply without a body carries "Content-Length: 0"}.  The status line is whatever the operation says - an honest accessory that is sloppy
+        # about status lines; WHAT was accepted / rejected is decided item by item as always and told by the body in the given shape:
+        #   none = no body, empty = {}, full = every item with its status (reads: value, or status), failures = only the rejected items (writes),
+        #   partial = request-wide status + the successfully read items (reads), global = request-wide status alone.
+        # A shape that cannot tell items apart (none, empty, global; partial with different statuses) makes the accessory refuse the request AS A WHOLE as soon
+        # as one item is to be refused: nothing is applied, every item is logged as rejected with that status.
+        self.op_http = None
 
     def is_closing(self):
         return self.closed
@@ -866,9 +909,9 @@ class IpWire:
         for seg in segs:
             loop.call_soon(self.protocol.data_received, seg)
 
-    def http_reply(self, code, reason, obj):
+    def http_reply(self, code, reason, obj, cl0=False):
         if obj is None:
-            return f"HTTP/1.1 {code} {reason}\r\n\r\n".encode()
+            return f"HTTP/1.1 {code} {reason}\r\n{'Content-Length: 0' + chr(13) + chr(10) if cl0 else ''}\r\n".encode()
         body = json.dumps(obj, separators=(",", ":")).encode()
         head = f"HTTP/1.1 {code} {reason}\r\nContent-Type: application/hap+json\r\n"
         if self.chunked:
@@ -877,10 +920,67 @@ class IpWire:
             return (head + "Transfer-Encoding: chunked\r\n\r\n").encode() + b"".join(b"%x\r\n%s\r\n" % (len(x), x) for x in parts if x) + b"0\r\n\r\n"
         return (head + f"Content-Length: {len(body)}\r\n\r\n").encode() + body
 
+    def serve_worded(self, method, target, body):
+        """the /characteristics requests of an operation that says how its reply is to be worded (op["http"])"""
+        acc, http = self.acc, self.op_http
+        code, shape = http["code"], http["shape"]
+        if method == "GET":
+            todo = [(aid, iid, "read", None) for aid, iid in (tuple(int(x) for x in t.split(".")) for t in target.split("=", 1)[1].split("&")[0].split(","))]
+            if shape == "failures":
+                shape = "full"  # a read reply has to carry the values
+        else:
+            todo = [(e["aid"], e["iid"], "write" if "value" in e else ("sub" if e.get("ev") else "unsub"), e.get("value")) for e in json.loads(body)["characteristics"]]
+            if shape == "partial":
+                shape = "failures"
+        sts = []
+        for aid, iid, kind, _v in todo:
+            c = acc.by_iid.get(iid)
+            st = acc.decide(kind, iid)
+            if st == 0 and (c is None or c["aid"] != aid):
+                st = -70409
+            sts.append(st)
+        bad = [st for st in sts if st != 0]
+        g = bad[0] if bad else 0
+        if bad and (shape in ("none", "empty", "global") or (shape == "partial" and len(set(bad)) > 1)):
+            sts = [g] * len(sts)  # this reply cannot tell the items apart: the request is refused as a whole
+        if not bad and method == "GET" and shape in ("none", "empty"):
+            shape = "full"  # values have to be carried by something
+        rows = []
+        for (aid, iid, kind, v), st in zip(todo, sts):
+            if st == 0 and kind == "write":
+                acc.values[iid] = v
+            if kind == "read":
+                acc.note("read", iid, st, acc.values[iid] if st == 0 else None)
+                rows.append({"aid": aid, "iid": iid, "value": acc.values[iid]} if st == 0 else {"aid": aid, "iid": iid, "status": st})
+            else:
+                acc.note(kind, iid, st, v)
+                rows.append({"aid": aid, "iid": iid, "status": st})
+        if method == "GET" and bad and shape == "full":
+            for r in rows:
+                r.setdefault("status", 0)
+        if shape == "none":
+            obj = None
+        elif shape == "empty":
+            obj = {}
+        elif shape == "full":
+            obj = {"characteristics": rows}
+        elif shape == "failures":
+            obj = {"characteristics": [r for r in rows if r["status"] != 0]}
+        elif shape == "partial":
+            obj = {"status": g, "characteristics": [r for r in rows if "value" in r]}
+        elif method == "GET" and not bad:
+            obj = {"status": 0, "characteristics": rows}
+        else:
+            obj = {"status": g}
+        self.replies.append((code, obj))
+        return self.http_reply(code, HTTP_REASONS.get(code, "Status"), obj, http.get("cl0", False))
+
     def serve(self, method, target, body):
         acc = self.acc
         if method == "GET" and target == "/accessories":
             return self.http_reply(200, "OK", {"accessories": model_json(self.layout)})
+        if self.op_http is not None and (method, target.split("?")[0]) in (("GET", "/characteristics"), ("PUT", "/characteristics")):
+            return self.serve_worded(method, target, body)
         if method == "GET" and target.startswith("/characteristics?id="):
             ids = [tuple(int(x) for x in t.split(".")) for t in target.split("=", 1)[1].split("&")[0].split(",")]
             rows, bad = [], False
@@ -968,6 +1068,59 @@ def _fmt_exc(e):
     return f"{type(e).__name__}: {str(e)[:80]}"
 
 
+def wording_terms(op, log):
+    """how strictly the outcome of an operation whose reply wording was chosen freely (op["http"], IP) can be judged:
+    None = the reply is worded as the specification says (or the operation does not say): every clause applies;
+    otherwise {"reports": does the BODY of the reply tell which items were refused}.  With a freely worded reply
+      - the call may FAIL whatever was accepted (status line and body may contradict each other), and a failed call need not notify anybody;
+      - a refusal that the body does not report (no body, {}, or any bytes after a 204 status line - a 204 reply has no body by definition of HTTP) is known
+        to the controller from the status line at best: what the library makes of it is noted, not judged;
+      - a refusal the body DOES report is never presented as done and listeners never hear of its value - whatever the status line says."""
+    http = op.get("http")
+    if http is None:
+        return None
+    kind = op["op"]
+    refused = any(st != 0 for k, _i, st, _v in log if k in ("write", "read", "sub", "unsub"))
+    if kind == "read":
+        spec = (207, "full") if refused else (200, "full")
+    else:
+        spec = (207, "full") if refused else (204, "none")
+    if (http["code"], http["shape"]) == spec:
+        return None
+    why = None
+    if http["shape"] in ("none", "empty"):
+        why = "the reply has no body / the body {} - nothing tells the refusal but the status line"
+    elif http["code"] == 204:
+        why = "a 204 reply has no body by definition of HTTP - bytes sent after it tell nothing"
+    elif kind in ("subscribe", "unsubscribe") and http["shape"] == "global":
+        # the property's text is about reads and writes; the clause on request-wide statuses is about reads
+        why = "a request-wide status in the reply to a SUBSCRIPTION request is outside the property's text (it is about reads and writes)"
+    elif kind == "subscribe" and http["code"] >= 400:
+        # IpPairing.subscribe answers a request that failed as a whole with an empty result by design (the subscription is kept and made again when the
+        # connection is next set up): what it makes of a 4xx reply is not this property's business (see style "400" of IpWire)
+        why = "subscribe() answers a request that failed as a whole (4xx) with an empty result by design and subscribes again with the next connection"
+    return {"reports": why is None, "why": why, "code": http["code"], "shape": http["shape"]}
+
+
+UNTOLD = {}  # (transport, kind of operation, body shape, clause, why it is not judged) -> status lines with which a refusal the reply does not tell was presented as done
+
+
+def _apply_terms(t, kind, terms, P, raised, ctx, unreported):
+    """drop what a freely worded reply does not allow to demand (see wording_terms); unreported = signatures that rest on a refusal being known"""
+    if terms is None:
+        return P
+    out = []
+    for sig, what in P:
+        name = sig.split("/", 1)[1]
+        if name.endswith("-raised") or (raised is not None and name == "accepted-not-notified"):
+            continue
+        if name in unreported and not terms["reports"]:
+            UNTOLD.setdefault((t, kind, terms["shape"], name, terms["why"]), set()).add(terms["code"])
+            continue
+        out.append((sig, what))
+    return out
+
+
 def write_oracle(t, op, perms, log, r, raised, events):
     P = []
     items = op["items"]
@@ -1042,6 +1195,11 @@ def read_oracle(t, op, log, r, raised, ctx=None):
         if it["iid"] not in answered:
             if isinstance(ent, dict) and "value" in ent:
                 P.append((f"{t}-e2e/read-invented", what + f"; {key} was never answered by the accessory"))
+            elif ent is None or _status_of(ent) in (0, None):
+                # "for EVERY requested characteristic, either the accessory's value or its error status": a characteristic the library did not even ask the
+                # accessory about still has to show up in the result - with an error status of the library's own making - or the call has to fail
+                P.append((f"{t}-e2e/read-item-dropped", what + f"; {key} was requested, the accessory was never asked for it, and the result has "
+                          + ("no entry for it (neither value nor error status)" if ent is None else f"{ent!r} for it (neither value nor error status)")))
             continue
         st, v = answered[it["iid"]]
         if st == 0:
@@ -1092,6 +1250,23 @@ def subscribe_oracle(t, op, log, r, raised):
     return P
 
 
+def identify_oracle(t, op, log, r, raised, events):
+    """identify() is a write of True to the Identify characteristic(s) behind a yes/no answer: yes only if the accessory accepted such a write"""
+    P = []
+    accepted = sorted(iid for kind, iid, st, _v in log if kind == "write" and st == 0)
+    rejected = {iid: st for kind, iid, st, _v in log if kind == "write" and st != 0}
+    what = f"{t} identify(): the accessory accepted the writes of iids {accepted} and rejected {dict(sorted(rejected.items()))}"
+    if raised is not None:
+        if not rejected:
+            P.append((f"{t}-e2e/identify-raised", what + f"; the call raised {_fmt_exc(raised)} although the accessory rejected nothing"))
+    elif r and not accepted:
+        P.append((f"{t}-e2e/identify-false-success", what + f"; the call returned {r!r} - the accessory is presented as having identified itself"))
+    told = sorted(k for ev in events if isinstance(ev, dict) for k in ev if isinstance(k, tuple) and len(k) == 2 and k[1] in rejected)
+    if told:
+        P.append((f"{t}-e2e/identify-false-success", what + f"; listeners were told the new value of {told}"))
+    return P
+
+
 # ------------------------------------------------------------------------------------------------------ running a case
 async def _e2e_history(case, ctx=None, rows=None):
     t = case["transport"]
@@ -1113,7 +1288,7 @@ async def _e2e_history(case, ctx=None, rows=None):
         acc.script = {}
         for it in op["items"]:
             st = it.get("st", 0)
-            if kind == "write":
+            if kind in ("write", "identify"):
                 if t == "ble" and "t" in perms[it["iid"]]:
                     acc.script[("twrite", it["iid"])] = st if it.get("stage", "timed") == "timed" else 0
                     acc.script[("exec", it["iid"])] = st if it.get("stage", "timed") == "exec" else 0
@@ -1124,8 +1299,10 @@ async def _e2e_history(case, ctx=None, rows=None):
         start = len(acc.log)
         wire = getattr(p, "_e2e_wire", None)
         nrep = len(wire.replies) if wire is not None else 0
+        if wire is not None:
+            wire.op_http = op.get("http")
         del events[:]
-        seq = tuple if op.get("as") == "tuple" else list
+        seq = {"tuple": tuple, "set": set, "keys": lambda g: dict.fromkeys(g).keys()}.get(op.get("as"), list)
         r, raised = None, None
         try:
             if kind == "write":
@@ -1134,24 +1311,32 @@ async def _e2e_history(case, ctx=None, rows=None):
                 r = await p.get_characteristics(seq((i["aid"], i["iid"]) for i in op["items"]))
             elif kind == "subscribe":
                 r = await p.subscribe(seq((i["aid"], i["iid"]) for i in op["items"]))
+            elif kind == "identify":
+                r = await p.identify()
             else:
                 r = await p.unsubscribe(seq((i["aid"], i["iid"]) for i in op["items"]))
         except (Exception, asyncio.CancelledError) as e:  # noqa: BLE001
             raised = e
         log = acc.log[start:]
         done += 1
+        if wire is not None:
+            wire.op_http = None
         try:
+            terms = wording_terms(op, log)
             if kind == "write":
                 P, accepted, rejected, notified = write_oracle(t, op, perms, log, r, raised, list(events))
+                P = _apply_terms(t, kind, terms, P, raised, ctx, ("false-success",))
                 if rows is not None and not P and (raised is None or t == "ble"):
                     rows.append((t, op, perms, accepted, rejected, notified, r, raised, wire.replies[nrep:] if wire is not None else None))
+            elif kind == "identify":
+                P = _apply_terms(t, kind, terms, identify_oracle(t, op, log, r, raised, list(events)), raised, ctx, ("identify-false-success",))
             elif kind == "read":
-                P = read_oracle(t, op, log, r, raised, ctx)
+                P = _apply_terms(t, kind, terms, read_oracle(t, op, log, r, raised, ctx), raised, ctx, ("read-error-dropped",))
                 if rows is not None and t == "ble" and raised is None and isinstance(r, dict):
                     # for the Lean model of the BLE read path (bleGet): what the accessory answered per item, and the result
                     rows.append(("bleread", op, None, {iid: (st, v) for k0, iid, st, v in log if k0 == "read"}, None, None, r, None, None))
             else:
-                P = subscribe_oracle(t, op, log, r, raised)
+                P = _apply_terms(t, kind, terms, subscribe_oracle(t, op, log, r, raised), raised, ctx, (f"{kind}-false-success",))
         except Exception as e:  # noqa: BLE001 - a result so malformed that it cannot even be inspected
             P = [(f"{t}-e2e/malformed-result", f"{t} {kind} of {[(i['aid'], i['iid']) for i in op['items']]}: the call returned {r!r} / listeners got {events!r}, which cannot be read as a "
                   f"result ({_fmt_exc(e)})")]
@@ -1183,6 +1368,10 @@ def gen_layout(rng, t, n=None):
         iid += rng.randint(1, 5)
         fmt = rng.choice(list(E2E_FMT))
         layout.append({"aid": rng.choice(aids), "iid": iid, "svc": rng.choice([0, 0, 1]), "perm": rng.choice(E2E_PERMS), "fmt": fmt, "value": gen_value(rng, fmt, t == "ble")})
+        if rng.random() < 0.3:  # the rest of the permission vocabulary
+            layout[-1]["perm"] = rng.choice(E2E_PERMS_MORE)
+            if layout[-1]["perm"] == "o":
+                layout[-1]["typ"] = rng.choice(PAIRING_TYPES)
     # every service carries at least one readable characteristic (a service without any makes the CoAP database sweep send an
     # empty batch, whose answer is up to the accessory - outside this property)
     for _aid, svcs in _grouped(layout):
@@ -1201,6 +1390,41 @@ def fixed_layout(t):
 
 def errors_of(t):
     return HAP_ERRORS if t == "ip" else PDU_ERRORS
+
+
+def wide_layout(t):
+    """fixed_layout plus the rest of the permission vocabulary: no permission at all, hidden ones, the characteristics of a pairing service (only the
+    unsecured read / write bits; CoAP and BLE list them in the database) and an Identify characteristic in an Accessory Information service"""
+    rows = [(21, "", "uint8", 3, 1, None), (22, "h", "bool", False, 1, None), (23, "wh", "int", 9, 1, None), (24, "rh", "string", "hid", 0, None),
+            (25, "rwh", "uint8", 8, 0, None), (26, "twh", "bool", True, 1, None), (31, "w", "bool", False, 2, IDENTIFY_TYPE), (32, "r", "string", "name", 2, None),
+            (41, "o", "uint8", 0, 3, 0x4C), (42, "o", "uint8", 0, 3, 0x4E), (43, "o", "uint8", 1, 3, 0x4F), (44, "o", "uint8", 0, 3, 0x50)]
+    # (CoAP: the database sweep of the library reads service by service and a service without any securely readable characteristic makes it send an empty
+    # batch, whose answer is up to the accessory - see gen_layout; there the pairing characteristics sit in the Accessory Information service)
+    return fixed_layout(t) + [dict({"aid": 1, "iid": i, "svc": 2 if (t == "coap" and s == 3) else s, "perm": p, "fmt": f, "value": v}, **({"typ": ty} if ty else {}))
+                              for i, p, f, v, s, ty in rows]
+
+
+def honest_wording(kind, code, shape, vec):
+    """can an honest accessory word its reply to a request with this accept(False)/reject(True) vector like this?  (IpWire.serve_worded refuses the whole
+    request when the shape cannot tell items apart, so the question is only whether the status line + body can be truthful at all)"""
+    some, every = any(vec), all(vec)
+    if shape in ("none", "empty"):
+        if kind == "read":
+            return every and code >= 400  # values need a body; without one the status line has to say that the request failed
+        return not some or (every and code >= 400)
+    if code == 204:
+        return True  # bytes after a 204 status line are no body: generated (sloppy accessories exist), a refusal "told" that way is noted, never judged
+    if shape == "global":
+        return not some or every
+    return True
+
+
+def gen_http(rng, kind, vec):
+    for _ in range(40):
+        code, shape = rng.choice(HTTP_CODES), rng.choice(HTTP_SHAPES[kind])
+        if honest_wording(kind, code, shape, vec):
+            return {"code": code, "shape": shape, "cl0": rng.random() < 0.5}
+    return None
 
 
 def gen_write_item(rng, t, c, reject):
@@ -1236,7 +1460,12 @@ def gen_op(rng, t, layout, kinds):
         else:
             need_rej = "r" not in c["perm"]
             items.append({"aid": c["aid"], "iid": c["iid"], "st": rng.choice(errors_of(t)) if (rej or need_rej) else 0})
-    return {"op": kind, "items": items, "as": rng.choice(["list", "list", "tuple"])}
+    op = {"op": kind, "items": items, "as": rng.choice(["list", "list", "tuple"] + (["set", "keys"] if kind == "read" else []))}
+    if t == "ip" and rng.random() < 0.4:
+        http = gen_http(rng, kind, [bool(i["st"]) for i in items])
+        if http is not None:
+            op["http"] = http
+    return op
 
 
 def _case(t, layout, ops, rng):
@@ -1284,10 +1513,84 @@ def e2e_cases(ctx, rng):
                     ops.append({"op": rng.choice(["subscribe", "unsubscribe"]), "items": [{"aid": 1, "iid": i, "st": rng.choice(errors_of(t)) if rej else 0} for i, rej in zip(riids, vec)]})
         for o in range(0, len(ops), 8):
             yield _case(t, layout, ops[o:o + 8], rng)
+        yield from permission_mix_cases(ctx, rng, t)
+        if t == "ip":
+            yield from wording_cases(ctx, rng)
         kinds = ["write", "write", "write", "read", "read"] + ([] if t == "ble" else ["subscribe", "unsubscribe"])
         for _ in range(ctx.budget(250, 4000)):
             layout = gen_layout(rng, t)
             yield _case(t, layout, [gen_op(rng, t, layout, kinds) for _ in range(rng.randint(2, 6))], rng)
+
+
+def permission_mix_cases(ctx, rng, t):
+    """reads, subscriptions and writes over EVERY permission class of wide_layout: each characteristic alone, every pair of one class with a readable+writable
+    one in both orders, requests made only of characteristics that cannot be read (resp. written), and random mixes of 3..4; what cannot be read / written
+    is refused by the accessory with a status drawn from all of the transport's error statuses"""
+    layout = wide_layout(t)
+    by = {c["iid"]: c for c in layout}
+
+    def ritem(i, kind):
+        need = "w" if kind == "write" else "r"
+        it = {"aid": 1, "iid": i, "st": 0 if need in by[i]["perm"] else rng.choice(errors_of(t))}
+        if kind == "write":
+            it = gen_write_item(rng, t, by[i], False)
+        return it
+    kinds = ["read", "write"] + ([] if t == "ble" else ["subscribe", "unsubscribe"])
+    ops = []
+    for kind in kinds:
+        every = [c["iid"] for c in layout]
+        cannot = [i for i in every if ("w" if kind == "write" else "r") not in by[i]["perm"]]
+        for i in every:
+            ops.append({"op": kind, "items": [ritem(i, kind)]})
+            if i != 12 and kind != "write":
+                ops.append({"op": kind, "items": [ritem(x, kind) for x in rng.choice([(12, i), (i, 12)])]})
+        for n in (2, 3):
+            for _ in range(ctx.budget(2, 6)):
+                ops.append({"op": kind, "items": [ritem(i, kind) for i in rng.sample(cannot, n)], "as": rng.choice(["list", "tuple"] + (["set", "keys"] if kind == "read" else []))})
+        for _ in range(ctx.budget(6, 40)):
+            ops.append({"op": kind, "items": [ritem(i, kind) for i in rng.sample(every, rng.choice([3, 4]))], "as": rng.choice(["list", "tuple"] + (["set", "keys"] if kind == "read" else []))})
+    if t == "ip":
+        for st in [0] + rng.sample(HAP_ERRORS, ctx.budget(3, len(HAP_ERRORS))):
+            ops.append({"op": "identify", "items": [{"aid": 1, "iid": 31, "st": st}]})
+    rng.shuffle(ops)
+    for o in range(0, len(ops), 8):
+        yield _case(t, layout, ops[o:o + 8], rng)
+
+
+def wording_cases(ctx, rng):
+    """IP: the STATUS LINE of a reply varied independently of its body: every HTTP status x body shape x accept/reject vector (one item accepted / refused, of two
+    the first / the last / both refused, of three the middle one) an honest accessory can produce, for write, read, subscribe, unsubscribe and identify; each
+    on a fresh session (a reply the library cannot make sense of may cost the session)"""
+    layout = wide_layout("ip")
+    by = {c["iid"]: c for c in layout}
+    vectors = [(False,), (True,), (True, False), (False, True), (True, True), (False, True, False), (False, False)]
+    todo = []
+    for kind in ("write", "read", "subscribe", "unsubscribe", "identify"):
+        for code in HTTP_CODES:
+            for shape in HTTP_SHAPES[kind]:
+                for vec in vectors:
+                    if kind == "identify" and len(vec) > 1:
+                        continue
+                    if honest_wording(kind, code, shape, vec):
+                        todo.append((kind, code, shape, vec))
+    rng.shuffle(todo)
+    keep = ctx.budget(450, len(todo))
+    # never thin out the combinations in which something is refused and the body tells so
+    todo.sort(key=lambda x: not (any(x[3]) and x[2] in ("full", "failures", "partial", "global")))
+    for kind, code, shape, vec in todo[:keep]:
+        err = rng.choice(HAP_ERRORS)
+        if kind == "identify":
+            items = [{"aid": 1, "iid": 31, "st": err if vec[0] else 0}]
+        elif kind == "write":
+            iids = rng.sample([11, 12, 13, 14, 15, 17, 18, 25], len(vec))
+            items = [dict(gen_write_item(rng, "ip", by[i], False), st=(err if shape in ("partial", "global") else rng.choice(HAP_ERRORS)) if rej else 0) for i, rej in zip(iids, vec)]
+        else:
+            iids = rng.sample([11, 12, 13, 14, 16, 17, 24, 25], len(vec))
+            items = [{"aid": 1, "iid": i, "st": (err if shape in ("partial", "global") else rng.choice(HAP_ERRORS)) if rej else 0} for i, rej in zip(iids, vec)]
+        op = {"op": kind, "items": items, "as": rng.choice(["list", "tuple"]), "http": {"code": code, "shape": shape, "cl0": rng.random() < 0.5}}
+        case = _case("ip", layout, [op], rng)
+        case["style"] = "spec"
+        yield case
 
 
 def e2e_streams(ctx, driver, rng):
@@ -1323,6 +1626,15 @@ def e2e_streams(ctx, driver, rng):
                         where = "only" if n == 1 else ("first" if pos == 0 else ("last" if pos == n - 1 else "middle"))
                         ctx.dist[f"{t}-e2e write: rejected item is the {where} one"] += 1
             ctx.nontrivial.add((t + "-e2e", op["op"], vec, tuple(sorted({i.get("st", 0) for i in op["items"]}))))
+            if op.get("http") is not None:
+                ctx.dist[f"ip-e2e reply status line {op['http']['code']} (varied independently of the body)"] += 1
+                ctx.dist[f"ip-e2e reply body shape {op['http']['shape']} ({'something' if any(vec) else 'nothing'} refused)"] += 1
+                ctx.nontrivial.add(("ip-e2e-wording", op["op"], op["http"]["code"], op["http"]["shape"], vec))
+            if op["op"] in ("read", "subscribe", "unsubscribe"):
+                by_iid = {c["iid"]: c["perm"] for c in case["layout"]}
+                for i in op["items"]:
+                    if "r" not in by_iid[i["iid"]]:
+                        ctx.dist[f"{t}-e2e {op['op']} of a characteristic that cannot be read (permissions '{by_iid[i['iid']] or 'none'}')"] += 1
         if t not in sampled and done:
             sampled.add(t)
             ctx.sample({k: v for k, v in case.items() if k != "layout"} | {"ops": case["ops"][:2]}, limit=9)
@@ -1352,7 +1664,7 @@ def e2e_streams(ctx, driver, rng):
                 lines[k].append("cl.coapput " + " ".join(f"{i['aid']}.{i['iid']}:{'r' if 'r' in perms[i['iid']] else 'w'}:{rejected.get(i['iid'], 0)}" for i in items))
                 outs[k].append(f"{keys_str(notified)} | {keys_str(r)}")
             elif tt == "ble":
-                lines[k].append("cl.bleput " + " ".join(f"{i['aid']}.{i['iid']}:{perms[i['iid']]}:{1 if i['iid'] in accepted else 0}" for i in items))
+                lines[k].append("cl.bleput " + " ".join(f"{i['aid']}.{i['iid']}:{model_perm(perms[i['iid']])}:{1 if i['iid'] in accepted else 0}" for i in items))
                 local = []  # locally refused (not writable) before the first item the accessory rejected
                 for i in items:
                     if "w" not in perms[i["iid"]]:
@@ -1363,10 +1675,19 @@ def e2e_streams(ctx, driver, rng):
             else:
                 if not replies or len(replies) != 1:
                     continue
-                body = replies[0][1]
+                code, body = replies[0]
+                if op.get("http") is not None:  # freely worded reply: the model sees what put_json hands on - nothing for 204, else the body if it lists characteristics
+                    if code == 204:
+                        body = None
+                    elif not (isinstance(body, dict) and "characteristics" in body and "status" not in body):
+                        continue
                 lines[k].append(f"cl.ipput {keys_str([(i['aid'], i['iid']) for i in items if 'r' in perms[i['iid']]])} {'204' if body is None else J(body)}")
                 outs[k].append(f"{keys_str(notified)} | {canon_result(r)}")
             cases[k].append({"stream": "e2e", "transport": tt, "layout": case["layout"], "ops": [op]})
+    for (t, kind, shape, name, why), codes in sorted(UNTOLD.items()):
+        ctx.notes.append(f"{t}: a {kind} the accessory refused, answered with status line {sorted(codes)} and body shape '{shape}', is presented as done by the library "
+                         f"[{name}] - noted, not judged: {why}")
+    UNTOLD.clear()
     for k in cases:
         if cases[k]:
             compare_with_model(ctx, k, cases[k], outs[k], lines[k], driver, canon=(lambda x: ",".join(sorted(x.split(",")))) if k == "bleread-e2e" else (lambda x: x))
